@@ -53,7 +53,7 @@ PROPERTIES = {
         'assumptions': ['join is checked for up to 2/3 arguments'],
     },
     'C08': {
-        'groups': ['G2', 'A1', 'F3', 'F2', 'M2', 'V5', 'V3', 'A2', 'G3', 'Z1', 'Z2', 'X4p'],
+        'groups': ['G2', 'A1', 'F3', 'F2', 'M2', 'V5', 'V3', 'X7', 'A2', 'G3', 'Z1', 'Z2', 'X4p'],
         'level': 'other',
         'explanation': 'C08 is the frame / freshness clause of every contract: __getitem__ leaves the source untouched and shares no '
                        'container with it; += leaves its right operand untouched; apply/remove_formatting leave the settings argument '
@@ -65,8 +65,50 @@ PROPERTIES = {
         'assumptions': ['"mutating either afterwards never changes the other" follows from the per-call separation clauses (no shared '
                         'dict, change point or marker list; setting objects are immutable)'],
     },
+    'C10': {
+        'groups': ['X1', 'X2c', 'X3', 'X4p', 'X4r', 'X5', 'X6', 'X6u', 'X7', 'X8', 'W2', 'Z2'],
+        'level': 'other',
+        'explanation': 'Differential contracts against str on the base text.  Unbounded (opaque text of any length, abstract table): '
+                       'the 18 query methods return what str returns (X1, wiring: the method hands all arguments to the same str '
+                       'method of the base text); the six case conversions (X2c); _strip with the loop invariants "everything '
+                       'counted so far is in the set" (X3: equals str.strip/lstrip/rstrip for the given or default set); '
+                       'partition/rpartition with the documented absent-separator result (X4p); removeprefix/removesuffix including '
+                       'the empty affix (X4r); split/rsplit with a separator (X5, results of at most 3 pieces); replace with count '
+                       '0/1 (X6u); expandtabs = replace(tab, tabsize spaces) (X7).  Bounded in the text length only (L<=4/5, every '
+                       'character symbolic over all of Unicode, tables abstract): replace for every count, overlapping and empty '
+                       'patterns, str and AnsiString/AnsiStr replacements (X6, includes termination: a path that does not finish is '
+                       'replayed natively under a timeout); splitlines and whitespace split/rsplit (X8).  ljust/rjust/center/zfill '
+                       'text = format() padding (W2, bounded tables, width/fill symbolic).  AnsiStr methods are their AnsiString '
+                       'counterparts (Z2).',
+        'trusted_base': ['str methods on opaque texts are uninterpreted functions with the contracts listed in DESIGN.md 2.5 '
+                         '(find returns -1 or a position where the pattern fits, ...)',
+                         'character-class models of str.splitlines / str.split(None) (pyvc/builtins_model.py), checked against '
+                         'CPython exhaustively on a 12-class alphabet up to length 4',
+                         'replace_expected in contracts/spec.py (written from the str.replace documentation; compared with '
+                         'str.replace by the self-test)'],
+        'assumptions': ['str replacement values contain no ESC (AnsiString parses incoming str for directives by design)',
+                        'empty separators (split/partition) are outside the claim, as the property says',
+                        'encode, __eq__, isascii/startswith (not listed in the property) are not covered'],
+    },
+    'C11': {
+        'groups': ['G3', 'X2c', 'X3', 'X4p', 'X4r', 'X5', 'X6', 'X6u', 'X7', 'X8', 'Y3'],
+        'level': 'other',
+        'explanation': 'Every piece returned by split/rsplit (with separator: X5 unbounded up to 3 pieces; whitespace: X8), splitlines '
+                       '(X8), partition/rpartition (X4p), strip family (X3), removeprefix/removesuffix (X4r) reports for each of its '
+                       'characters (Skolemised position k) the settings the original reports at the true offset + k, where the true '
+                       'offset is computed in the contract from the str result (piece lengths and separator length / line and '
+                       'whitespace structure), never by searching.  The pieces are produced by clip/__getitem__, whose contract '
+                       '(G3, G2) is "view(result, k) == view(source, lo + k)".  Case conversions keep the settings at every '
+                       'position when the length is kept (X2c).  assign_str (Y3, bounded tables, lengths symbolic): kept positions '
+                       'keep their settings, added characters continue the last character, the table stays well formed.  replace '
+                       '(X6/X6u) and expandtabs (X7): characters outside the matches keep their settings, a plain-str replacement '
+                       'gets the settings of the first character of each match, an AnsiString/AnsiStr replacement its own, for every '
+                       'match; the replacement value is not modified.',
+        'trusted_base': ['as C10'],
+        'assumptions': ['as C10; "settings" means the ordered list of setting texts reported by ansi_settings_at'],
+    },
     'C13': {
-        'groups': ['Z1', 'Z2', 'Z3', 'Z4', 'Z5', 'Z6', 'V3', 'V5'],
+        'groups': ['Z1', 'Z2', 'Z3', 'Z4', 'Z5', 'Z6', 'V3', 'X7', 'V5'],
         'level': 'other',
         'explanation': 'Unbounded (abstract wrapped value, every AnsiString method an uninterpreted state transformer): each of the 58 '
                        'AnsiStr methods is its AnsiString counterpart applied to a private copy and wrapped as AnsiStr, all arguments '
